@@ -625,7 +625,7 @@ func main() {
 		return
 	}
 
-	meta := vh.NewMeta("forced schedules (mode S): per scenario every schedule (depth-first, capped) of starting/releasing workers parked at add:upgrade, in a Query visitor or inside a paused Leaf.Update, plus random schedules of random programs; distinct = distinct (program, executed schedule), non-trivial = at some observation at least two workers were in flight (parked or blocked). free-running windows (mode A): 2..16 goroutines, <=8 operations per window on 8 overlapping leaf paths; distinct = distinct recorded history, non-trivial = two operations of different goroutines overlap in time and one of them writes")
+	meta := vh.NewMeta("forced schedules (mode S): per scenario every schedule (depth-first, capped) of starting/releasing workers parked at add:upgrade, in a Query visitor or inside a paused Leaf.Update, plus random schedules of random programs; distinct = distinct (program, executed schedule), non-trivial = at some observation at least two workers were in flight (parked or blocked). free-running windows (mode A): 2..16 goroutines, <=8 operations per window on 8 overlapping leaf paths, every second workload (windows, hammer, api) storing the values in an uncomparable struct type (a slice field) instead of int64; distinct = distinct recorded history, non-trivial = two operations of different goroutines overlap in time and one of them writes")
 	e := &emitter{dir: o.Out, cf: vh.NewCaseFile(), meta: meta, limit: 250}
 
 	if o.Replay != "" {
@@ -715,7 +715,7 @@ func main() {
 	}
 	var wls []Workload
 	for i := 0; i < nwl; i++ {
-		wls = append(wls, Workload{Seed: r.U64(), G: 2 + r.Intn(15), Windows: 10})
+		wls = append(wls, Workload{Seed: r.U64(), G: 2 + r.Intn(15), Windows: 10, Box: i%2 == 1})
 	}
 	// batches, so that one crash costs little
 	for b := 0; b*20 < len(wls); b++ {
@@ -735,7 +735,7 @@ func main() {
 	}
 	var sw []Workload
 	for i := 0; i < nh; i++ {
-		sw = append(sw, Workload{Kind: "hammer", Seed: r.U64(), G: 4, Windows: per})
+		sw = append(sw, Workload{Kind: "hammer", Seed: r.U64(), G: 4, Windows: per, Box: i%2 == 1})
 	}
 	for b := 0; b*10 < len(sw); b++ {
 		hi := (b + 1) * 10
@@ -749,7 +749,7 @@ func main() {
 	}
 	sw = nil
 	for i := 0; i < na; i++ {
-		sw = append(sw, Workload{Kind: "api", Seed: r.U64(), G: 2 + r.Intn(15), Windows: per})
+		sw = append(sw, Workload{Kind: "api", Seed: r.U64(), G: 2 + r.Intn(15), Windows: per, Box: i%2 == 1})
 	}
 	e.modeA("A:api", sw, o.Out, "api")
 	e.flush()
